@@ -731,3 +731,17 @@ Proof.
   { unfold hopen_needs_upgrade, DFACC_WRITE in *. rewrite Hm. reflexivity. }
   rewrite E in H. simpl in H. inversion H; subst. auto.
 Qed.
+
+(** round 4: the write attach of an existing vdata opens its data element on every path of that branch and checks the
+    result; SDreaddata / SDwritedata name themselves (NCcoordck decides by that name whether a read past the end of a
+    record variable is refused or filled by WRITING records); GRsetcompress fails exactly when the element cannot be
+    created *)
+Lemma round4_structure :
+  vsattach_w_hstartwrite_depth = 2 /\ vsattach_w_failure_checked = 1 /\
+  sdreaddata_sets_routine_name = 1 /\ sdwritedata_sets_routine_name = 1.
+Proof. repeat split; reflexivity. Qed.
+Lemma grsetcompress_fail_spec : forall r, grsetcompress_fails_when r = 1 <-> r = FAIL.
+Proof.
+  intro r. unfold grsetcompress_fails_when, FAIL. simpl.
+  destruct (Z.eqb_spec r (-1)); split; intro; auto; try discriminate; contradiction.
+Qed.
